@@ -80,6 +80,12 @@ CHECKS = {
                      "FastStochastic unchanged, Maximum(x) == -Minimum(-x); all positive real prices / valid bars, n<=3 (4), t=2n+2; RSI excluded as in the statement; violations replayed natively with the "
                      "1e-12 / 1e-9 clauses.",
                 technique="symbolic execution of rustc MIR into z3 (pairs of runs, scaling lemmas for abstracted quotients); native replay", design='4/C14'),
+    'C05': dict(text="Bounded model checking by solver: (R) for all 22 indicators, n<=2 (3): history of h in {0,1,n,n+1} symbolic inputs, clone, then original, clone and an unrelated instance stepped "
+                     "round-robin with independent symbolic inputs; every instance's outputs equal a sequential replay of its own sequence on a fresh instance (so nothing leaks between instances and "
+                     "outputs are a function of the instance's own history); the executor has no global memory, so any static/thread-local access is undecided rather than ignored; (K) bit-precise: "
+                     "the same interleaving on a 3-value alphabet for add/compare-only indicators and MAD, and for every f64 the clone's serialized state equals the original's and is untouched by "
+                     "stepping the original. Threads are outside (Kani has no concurrency).",
+                technique="symbolic execution of rustc MIR into z3 (interleaved instances vs replays) + Kani/CBMC harnesses; native replay", design='4/C05'),
 }
 NA = {
     'C19': "decided by rustc's type checker once and for all; there is no input, state or schedule for an SMT/SAT solver to quantify over",
